@@ -140,6 +140,14 @@ def judge(prop, obs, ctx, shards=12):
     if not obs:
         return []
     shards = max(1, min(shards, (len(obs) + 199) // 200))
+    env0 = {}
+    if getattr(prop, "SHARED_WORLD", False):
+        # all records share one (large) world: ship it once, in its own file (IOEnv.WORLD)
+        wfile = os.path.join(ctx.scratch, "world.%s.json" % prop.ID)
+        with open(wfile, "w") as f:
+            json.dump({"world": obs[0]["world"], "snapshot": obs[0].get("snapshot", [])}, f)
+        env0["WORLD"] = wfile
+        obs = [{k: v for k, v in o.items() if k not in ("world", "snapshot")} for o in obs]
     files = []
     for i in range(shards):
         fn = os.path.join(ctx.scratch, "obs.%s.%d.ndjson" % (prop.ID, i))
@@ -149,7 +157,7 @@ def judge(prop, obs, ctx, shards=12):
         files.append(fn)
 
     def one(fn):
-        r = lib.run_tlc(prop.JUDGE, workers=1, env={"OBS": fn}, tags=("VERDICT", "JUDGED"), timeout=3000,
+        r = lib.run_tlc(prop.JUDGE, workers=1, env=dict(env0, OBS=fn), tags=("VERDICT", "JUDGED"), timeout=3000,
                         xmx="4g")
         if r.rc != 0 or not r.lines["JUDGED"]:
             tail = "\n".join(l for l in r.out.splitlines() if not l.startswith('<<"VERDICT"'))[-3000:]
